@@ -25,6 +25,98 @@ type lit struct {
 	Cls, S, D int
 	CodeExpr  string
 	EnchExpr  string
+	Func      string // enclosing function ("" = package level)
+	Defs      string // dynamic, codes given by plain identifiers: how the function computes them
+}
+
+// fieldWrite is an assignment to the Code / EnhancedCode field of some value (an error object
+// adjusted after it was built): "lhs op rhs".
+type fieldWrite struct {
+	File, Func, Stmt string
+}
+
+// rootIdent strips index expressions: enchCode[0] -> enchCode.
+func rootIdent(e ast.Expr) (string, bool) {
+	for {
+		switch t := e.(type) {
+		case *ast.IndexExpr:
+			e = t.X
+		case *ast.ParenExpr:
+			e = t.X
+		case *ast.Ident:
+			return t.Name, true
+		default:
+			return "", false
+		}
+	}
+}
+
+// codeFieldSel: e is X.Code, X.EnhancedCode or an element of the latter.
+func codeFieldSel(e ast.Expr) bool {
+	for {
+		switch t := e.(type) {
+		case *ast.IndexExpr:
+			e = t.X
+		case *ast.ParenExpr:
+			e = t.X
+		case *ast.SelectorExpr:
+			return t.Sel.Name == "Code" || t.Sel.Name == "EnhancedCode"
+		default:
+			return false
+		}
+	}
+}
+
+// defsOf lists, in source order, how the identifiers `names` get their values inside fn:
+// parameters, var declarations, assignments (also to elements).
+func defsOf(fset *token.FileSet, fn *ast.FuncDecl, names map[string]bool) string {
+	var out []string
+	if fn.Type.Params != nil {
+		for _, f := range fn.Type.Params.List {
+			for _, n := range f.Names {
+				if names[n.Name] {
+					out = append(out, "param "+n.Name+" "+exprStr(fset, f.Type))
+				}
+			}
+		}
+	}
+	ast.Inspect(fn.Body, func(n ast.Node) bool {
+		switch st := n.(type) {
+		case *ast.AssignStmt:
+			hit := false
+			for _, l := range st.Lhs {
+				if id, ok := rootIdent(l); ok && names[id] {
+					hit = true
+				}
+			}
+			if hit {
+				var ls, rs []string
+				for _, l := range st.Lhs {
+					ls = append(ls, exprStr(fset, l))
+				}
+				for _, r := range st.Rhs {
+					rs = append(rs, exprStr(fset, r))
+				}
+				out = append(out, strings.Join(ls, ", ")+" "+st.Tok.String()+" "+strings.Join(rs, ", "))
+			}
+		case *ast.ValueSpec:
+			for i, id := range st.Names {
+				if names[id.Name] {
+					v := ""
+					if i < len(st.Values) {
+						v = " = " + exprStr(fset, st.Values[i])
+					}
+					out = append(out, "var "+id.Name+v)
+				}
+			}
+		case *ast.IncDecStmt:
+			if id, ok := rootIdent(st.X); ok && names[id] {
+				out = append(out, exprStr(fset, st.X)+st.Tok.String())
+			}
+		}
+		return true
+	})
+	return strings.Join(out, "; ")
 }
 
 func exprStr(fset *token.FileSet, e ast.Expr) string {
@@ -90,6 +182,7 @@ func init() { commands["smtplits"] = smtpLits }
 func smtpLits(repo, out string) error {
 	fset := token.NewFileSet()
 	var lits []lit
+	var writes []fieldWrite
 	err := filepath.Walk(repo, func(path string, info os.FileInfo, err error) error {
 		if err != nil {
 			return err
@@ -111,68 +204,102 @@ func smtpLits(repo, out string) error {
 		if perr != nil {
 			return perr
 		}
-		ast.Inspect(f, func(n ast.Node) bool {
-			cl, ok := n.(*ast.CompositeLit)
-			if !ok || cl.Type == nil || !isSMTPErrorType(cl.Type) {
-				return true
+		for _, decl := range f.Decls {
+			fn, _ := decl.(*ast.FuncDecl)
+			fname := ""
+			if fn != nil {
+				fname = fn.Name.Name
 			}
-			var codeE, enchE ast.Expr
-			for _, el := range cl.Elts {
-				kv, ok := el.(*ast.KeyValueExpr)
-				if !ok {
-					continue
+			ast.Inspect(decl, func(n ast.Node) bool {
+				if as, ok := n.(*ast.AssignStmt); ok {
+					for _, lh := range as.Lhs {
+						if codeFieldSel(lh) {
+							var ls, rs []string
+							for _, x := range as.Lhs {
+								ls = append(ls, exprStr(fset, x))
+							}
+							for _, x := range as.Rhs {
+								rs = append(rs, exprStr(fset, x))
+							}
+							writes = append(writes, fieldWrite{rel, fname, strings.Join(ls, ", ") + " " + as.Tok.String() + " " + strings.Join(rs, ", ")})
+							break
+						}
+					}
+					return true
 				}
-				k, _ := kv.Key.(*ast.Ident)
-				if k == nil {
-					continue
+				cl, ok := n.(*ast.CompositeLit)
+				if !ok || cl.Type == nil || !isSMTPErrorType(cl.Type) {
+					return true
 				}
-				switch k.Name {
-				case "Code":
-					codeE = kv.Value
-				case "EnhancedCode":
-					enchE = kv.Value
+				var codeE, enchE ast.Expr
+				for _, el := range cl.Elts {
+					kv, ok := el.(*ast.KeyValueExpr)
+					if !ok {
+						continue
+					}
+					k, _ := kv.Key.(*ast.Ident)
+					if k == nil {
+						continue
+					}
+					switch k.Name {
+					case "Code":
+						codeE = kv.Value
+					case "EnhancedCode":
+						enchE = kv.Value
+					}
 				}
-			}
-			l := lit{File: rel, Line: fset.Position(cl.Pos()).Line, CodeExpr: exprStr(fset, codeE), EnchExpr: exprStr(fset, enchE)}
-			code, codeConst := 0, false
-			if codeE != nil {
-				code, codeConst = intLit(codeE)
-			}
-			a, b, c, enchConst := 0, 0, 0, false
-			if enchE != nil {
-				a, b, c, enchConst = tripleLit(enchE)
-			}
-			enchNotSet := enchE == nil || strings.HasSuffix(l.EnchExpr, "EnhancedCodeNotSet")
-			switch {
-			case codeConst && enchConst:
-				l.Kind, l.Code, l.Cls, l.S, l.D = "const", code, a, b, c
-			case codeConst && enchNotSet:
-				l.Kind, l.Code = "notset", code
-			case calleeName(codeE) == "SMTPCode" && calleeName(enchE) == "SMTPEnchCode":
-				ca := codeE.(*ast.CallExpr).Args
-				ea := enchE.(*ast.CallExpr).Args
-				t, ok1 := 0, false
-				p, ok2 := 0, false
-				if len(ca) == 3 {
-					t, ok1 = intLit(ca[1])
-					p, ok2 = intLit(ca[2])
+				l := lit{File: rel, Line: fset.Position(cl.Pos()).Line, CodeExpr: exprStr(fset, codeE), EnchExpr: exprStr(fset, enchE), Func: fname}
+				code, codeConst := 0, false
+				if codeE != nil {
+					code, codeConst = intLit(codeE)
 				}
-				x, y, z, ok3 := 0, 0, 0, false
-				if len(ea) == 2 {
-					x, y, z, ok3 = tripleLit(ea[1])
+				a, b, c, enchConst := 0, 0, 0, false
+				if enchE != nil {
+					a, b, c, enchConst = tripleLit(enchE)
 				}
-				sameErr := len(ca) == 3 && len(ea) == 2 && exprStr(fset, ca[0]) == exprStr(fset, ea[0])
-				if ok1 && ok2 && ok3 && sameErr {
-					l.Kind, l.T, l.P, l.Cls, l.S, l.D = "helper", t, p, x, y, z
-				} else {
+				enchNotSet := enchE == nil || strings.HasSuffix(l.EnchExpr, "EnhancedCodeNotSet")
+				switch {
+				case codeConst && enchConst:
+					l.Kind, l.Code, l.Cls, l.S, l.D = "const", code, a, b, c
+				case codeConst && enchNotSet:
+					l.Kind, l.Code = "notset", code
+				case calleeName(codeE) == "SMTPCode" && calleeName(enchE) == "SMTPEnchCode":
+					ca := codeE.(*ast.CallExpr).Args
+					ea := enchE.(*ast.CallExpr).Args
+					t, ok1 := 0, false
+					p, ok2 := 0, false
+					if len(ca) == 3 {
+						t, ok1 = intLit(ca[1])
+						p, ok2 = intLit(ca[2])
+					}
+					x, y, z, ok3 := 0, 0, 0, false
+					if len(ea) == 2 {
+						x, y, z, ok3 = tripleLit(ea[1])
+					}
+					sameErr := len(ca) == 3 && len(ea) == 2 && exprStr(fset, ca[0]) == exprStr(fset, ea[0])
+					if ok1 && ok2 && ok3 && sameErr {
+						l.Kind, l.T, l.P, l.Cls, l.S, l.D = "helper", t, p, x, y, z
+					} else {
+						l.Kind = "dynamic"
+					}
+				default:
 					l.Kind = "dynamic"
 				}
-			default:
-				l.Kind = "dynamic"
-			}
-			lits = append(lits, l)
-			return true
-		})
+				if l.Kind == "dynamic" && fn != nil && fn.Body != nil {
+					names := map[string]bool{}
+					for _, e := range []ast.Expr{codeE, enchE} {
+						if id, ok := e.(*ast.Ident); ok {
+							names[id.Name] = true
+						}
+					}
+					if len(names) != 0 {
+						l.Defs = defsOf(fset, fn, names)
+					}
+				}
+				lits = append(lits, l)
+				return true
+			})
+		}
 		return nil
 	})
 	if err != nil {
@@ -229,8 +356,8 @@ func smtpLits(repo, out string) error {
 		fmt.Fprintf(&b, "  (%q, %d, %d, %d, %d, %d)", l.File, l.Line, l.T, l.P, l.S, l.D)
 	}
 	b.WriteString("\n]\n\n")
-	b.WriteString("/-- (file, codeExpr, enchExpr): literals with a non-constant code; must be on the explained allow-list -/\n")
-	b.WriteString("def dynamicLits : List (String × String × String) := [\n")
+	b.WriteString("/-- (file, function, codeExpr, enchExpr, how the function computes codes given by plain identifiers):\nliterals with a non-constant code; must be on the explained allow-list -/\n")
+	b.WriteString("def dynamicLits : List (String × String × String × String × String) := [\n")
 	first = true
 	for _, l := range lits {
 		if l.Kind != "dynamic" {
@@ -240,7 +367,17 @@ func smtpLits(repo, out string) error {
 			b.WriteString(",\n")
 		}
 		first = false
-		fmt.Fprintf(&b, "  (%q, %q, %q)", l.File, l.CodeExpr, l.EnchExpr)
+		fmt.Fprintf(&b, "  (%q, %q, %q, %q, %q)", l.File, l.Func, l.CodeExpr, l.EnchExpr, l.Defs)
+	}
+	b.WriteString("\n]\n\n")
+	b.WriteString("/-- (file, function, statement): assignments to the Code / EnhancedCode field of a value after it was built -/\n")
+	b.WriteString("def fieldWrites : List (String × String × String) := [\n")
+	sort.SliceStable(writes, func(i, j int) bool { return writes[i].File < writes[j].File })
+	for i, w := range writes {
+		if i != 0 {
+			b.WriteString(",\n")
+		}
+		fmt.Fprintf(&b, "  (%q, %q, %q)", w.File, w.Func, w.Stmt)
 	}
 	b.WriteString("\n]\n\nend MaddyVerif.Generated.SmtpLits\n")
 	return writeIfChanged(out, b.String())
